@@ -1,12 +1,14 @@
 CONSTANTS
   Dev = {}
+  AnchorForms = {"dnskey"}
+  Cfgs = {"default"}
   MaxRuns = 1
   EntQKinds = {"positive", "nxdomain", "ds"}
   Budget = 2
   Shapes = {"secure3"}
   Denials = {"nsec"}
   QKinds = {"positive"}
-  AdvActs = {"ShortSig", "DropRrsig", "DropRrset", "ReplaceRdata", "WrongSigner", "Expire", "NotYetValid", "ReplayAncestor", "AddCollidingKey", "AddExtraDs", "CorruptSigOctets", "HideCe", "ForgeSigned", "AddBadSig", "CorruptKey", "CorruptDs", "StripProof", "ForgeNsecRange", "SwapProof", "BadNsec3Label", "BadNsec3LabelSigned", "ZeroCounts", "ZeroTtl", "Inject", "CnameLoop"}
+  AdvActs = {"ShortSig", "DropRrsig", "DropRrset", "ReplaceRdata", "WrongSigner", "Expire", "NotYetValid", "ReplayAncestor", "AddCollidingKey", "AddExtraDs", "CorruptSigOctets", "HideCe", "ForgeSigned", "AddBadSig", "CorruptKey", "CorruptDs", "StripProof", "ForgeNsecRange", "SwapProof", "BadNsec3Label", "BadNsec3LabelSigned", "ZeroCounts", "ZeroTtl", "Inject", "CnameLoop", "MisapplyWildcard", "DenyExisting", "SigsFirst", "Duplicate", "OrphanSig", "WrongSoa"}
 SPECIFICATION TSpec
 INVARIANT TraceSound
 POSTCONDITION Accepted
